@@ -156,7 +156,7 @@ func (f *fsFile) Close() error {
 }
 
 func (o *fsOpener) OpenFile(name string) (dictionary.File, error) {
-	if o.nopen >= 200 {
+	if o.nopen >= 200 || len(o.events) > 20000 {
 		o.exceeded = true
 		return nil, &memOpenError{name}
 	}
